@@ -567,7 +567,8 @@ fn frameable(dir: Dir, pdu: &[u8]) -> bool {
 
 fn adu_req(tr: &str, tid: u16, id: u8, spec: &ReqSpec) -> String {
     let Some(m) = req_meaning(spec) else { return "NA kind outside the property".into() };
-    if !req_fits(&m) {
+    let transplant = matches!(spec, ReqSpec::WmcS(..) | ReqSpec::WmrS(..) | ReqSpec::RwmS(..) | ReqSpec::WmrX(..) | ReqSpec::RwmX(..));
+    if !(req_fits(&m) || (transplant && req_count_fits(&m))) {
         return "NA payload out of range".into();
     }
     let want_pdu = req_bytes(&m);
@@ -642,7 +643,8 @@ fn adu_rsp(tr: &str, tid: u16, id: u8, spec: &PduSpec) -> String {
             return "NA custom response code >= 0x80 is an exception PDU on the wire".into();
         }
     }
-    if !rsp_fits(&m) {
+    let transplant = matches!(spec, PduSpec::Rsp(RspSpec::CoilsS(..)) | PduSpec::Rsp(RspSpec::RegsS(..)));
+    if !(rsp_fits(&m) || (transplant && rsp_count_fits(&m))) {
         return "NA payload out of range".into();
     }
     let want_pdu = rsp_bytes(&m);
@@ -1137,15 +1139,37 @@ fn c12_case(size: usize, mut enc: impl FnMut(&mut [u8]) -> Option<Result<usize, 
 
 fn c12(kind: &str, t: &[&str]) -> String {
     match kind {
+        "tcplen" if t.len() == 2 => {
+            // a custom PDU of n + 1 bytes through the TCP ADU encoder: an error or the exact frame, never a panic
+            let Ok(n) = t[1].parse::<usize>() else { return "NA unparsable".into() };
+            let d = vec![0x5Au8; n];
+            let mut buf = vec![0xD7u8; n + 1 + 7 + 2];
+            let r = if t[0] == "rsp" {
+                catch(|| tcp::server::encode_response(tcp::ResponseAdu { hdr: tcp::Header { transaction_id: 1, unit_id: 9 }, pdu: ResponsePdu(Ok(Response::Custom(FunctionCode::Custom(0x41), &d))) }, &mut buf))
+            } else {
+                catch(|| tcp::server::encode_request(tcp::RequestAdu { hdr: tcp::Header { transaction_id: 1, unit_id: 9 }, pdu: RequestPdu(Request::Custom(FunctionCode::Custom(0x41), &d)) }, &mut buf))
+            };
+            verdict("-", match r {
+                None => Err(format!("TCP ADU encoder panicked on a PDU of {} bytes", n + 1)),
+                Some(Err(_)) => if n + 2 <= 65535 { Err(format!("PDU of {} bytes refused although its length field fits", n + 1)) } else { Ok(()) },
+                Some(Ok(k)) => if k == n + 8 && n + 2 <= 65535 && buf[k..].iter().all(|x| *x == 0xD7) && (buf[4] as usize) * 256 + buf[5] as usize == n + 2 { Ok(()) } else { Err(format!("returned {k} with length field {:02X}{:02X} for a PDU of {} bytes", buf[4], buf[5], n + 1)) },
+            })
+        }
         "req" | "rtureq" | "tcpreq" => {
             let Some((spec, _)) = parse_req(t) else { return "NA unparsable".into() };
             let Some(m) = req_meaning(&spec) else { return "NA not encodable".into() };
-            if !req_fits(&m) {
+            let transplant = matches!(spec, ReqSpec::WmcS(..) | ReqSpec::WmrS(..) | ReqSpec::RwmS(..) | ReqSpec::WmrX(..) | ReqSpec::RwmX(..));
+            if !(req_fits(&m) || (transplant && req_count_fits(&m))) {
                 return "NA payload out of range".into();
             }
             with_req(&spec, |v| {
                 let Some(v) = v else { return "NA constructor refused".into() };
                 let Some(pl) = catch(|| v.pdu_len()) else { return fail("-", "pdu_len panicked".into()) };
+                // the encoded size is the size of the PDU the specification describes, not what the value reports
+                let want = req_bytes(&m).len();
+                if pl != want {
+                    return fail("-", format!("pdu_len() = {pl} but the PDU has {want} bytes"));
+                }
                 let r = match kind {
                     "req" => c12_case(pl, |b| catch(|| v.encode(b))).and_then(|_| c12_case(pl, |b| catch(|| RequestPdu(v).encode(b)))),
                     "rtureq" => c12_case(pl + 3, |b| catch(|| rtu::client::encode_request(rtu::RequestAdu { hdr: rtu::Header { slave: 0x11 }, pdu: RequestPdu(v) }, b))),
@@ -1157,7 +1181,8 @@ fn c12(kind: &str, t: &[&str]) -> String {
         _ => {
             let Some((spec, _)) = parse_pdu(t) else { return "NA unparsable".into() };
             let Some(m) = rsp_meaning(&spec) else { return "NA not encodable".into() };
-            if !rsp_fits(&m) || matches!(m, RspM::Exc(f, _) if f >= 0x80) {
+            let transplant = matches!(spec, PduSpec::Rsp(RspSpec::CoilsS(..)) | PduSpec::Rsp(RspSpec::RegsS(..)));
+            if !(rsp_fits(&m) || (transplant && rsp_count_fits(&m))) || matches!(m, RspM::Exc(f, _) if f >= 0x80) {
                 return "NA payload out of range".into();
             }
             with_pdu(&spec, |p| {
@@ -1169,6 +1194,11 @@ fn c12(kind: &str, t: &[&str]) -> String {
                     },
                     Err(_) => 2,
                 };
+                // open finding D12: the crate's write-single-coil response has three bytes
+                let want = if let RspM::Wsc(_) = m { 3 } else { rsp_bytes(&m).len() };
+                if pl != want {
+                    return fail("-", format!("pdu_len() = {pl} but the PDU has {want} bytes"));
+                }
                 let r = match kind {
                     "rsp" => c12_case(pl, |b| catch(|| p.encode(b))).and_then(|_| match &p.0 {
                         Ok(v) => c12_case(pl, |b| catch(|| v.encode(b))),
